@@ -7,6 +7,7 @@ package flamego
 
 import (
 	"net/http"
+	"net/url"
 
 	"github.com/flamego/flamego/internal/route"
 	"github.com/flamego/flamego/internal/vx"
@@ -14,6 +15,7 @@ import (
 
 func init() {
 	vx.Register("VH_C12_named", VH_C12_named)
+	vx.Register("VH_C12_context", VH_C12_context)
 }
 
 func vPanics(f func()) (panicked bool) {
@@ -72,3 +74,50 @@ func VH_C12_named() {
 	vx.Assert(vPanics(func() { r.Combo("/cc").Name("x") }), "C12: naming a combo without routes panics")
 	vx.Observe("named", opt, got)
 }
+
+// VH_C12_context: Context.URLPath is Router.URLPath with the pairs as given - whatever bind
+// parameters the request being served has itself (none, one, several; with the names of the
+// target route's binds or with other names).
+func VH_C12_context() {
+	r := newRouter(func(http.ResponseWriter, *http.Request, route.Params, []Handler, urlPather) internalContext {
+		return &vCtx{}
+	}).(*router)
+	r.Get("/u/{name}/?{tab}", func() {}).Name("user")
+	r.Get("/{name}/{tab}/settings", func() {}).Name("settings")
+	n := vx.ParamInt("vlen")
+	name, tab := vx.String(n), vx.String(n)
+	own := route.Params{"route": "/{name}/{tab}"}
+	switch vx.Choice(4) {
+	case 1:
+		own["name"] = "cur"
+	case 2:
+		own["name"], own["tab"] = "cur", "rent"
+	case 3:
+		own["name"], own["tab"], own["other"] = "cur", "rent", "x"
+	}
+	req := &http.Request{Method: "GET", URL: &url.URL{Path: "/cur/rent"}, Header: http.Header{}}
+	c := newContext(vC12W{http.Header{}}, req, own, nil, r.URLPath)
+	var pairs []string
+	if vx.Bool() {
+		pairs = append(pairs, "name", name)
+	}
+	opt := vx.Bool()
+	if opt {
+		pairs = append(pairs, "withOptional", "true")
+	}
+	if vx.Bool() {
+		pairs = append(pairs, "tab", tab)
+	}
+	got, want := c.URLPath("user", pairs...), r.URLPath("user", pairs...)
+	vx.Assert(got == want, "C12: Context.URLPath is Router.URLPath with the pairs as given (binds without a supplied value stay visible, whatever the current request's own parameters)")
+	got2, want2 := c.URLPath("settings", pairs...), r.URLPath("settings", pairs...)
+	vx.Assert(got2 == want2, "C12: Context.URLPath is Router.URLPath with the pairs as given (binds without a supplied value stay visible, whatever the current request's own parameters)")
+	vx.Assert(c.URLPath("settings") == "/{name}/{tab}/settings", "C12: binds without a value stay visible as {bind}")
+	vx.Observe("ctx", got, got2)
+}
+
+type vC12W struct{ h http.Header }
+
+func (w vC12W) Header() http.Header         { return w.h }
+func (w vC12W) Write(b []byte) (int, error) { return len(b), nil }
+func (w vC12W) WriteHeader(int)             {}
